@@ -21,6 +21,7 @@ import common
 from qfmt import Rq
 from rcases import real_stmt
 from props import c04, c03
+import amplayers
 
 TECHNIQUE = "Coq proof (Minkowski invariance, Wigner-D unitarity 2j<=8, closed-form invariance) + layered Coq-Interval tie at p and Lambda p + certified metamorphic comparison for spinful cascades"
 
@@ -44,6 +45,9 @@ def four_body(rnd):
     return ampkit.four_body_config(M0, mf, spins, chains), M0, mf, (("B", "C"), ("D", "E"))
 
 
+VCASES = []
+
+
 def metamorphic(ctx, rnd, tag, cfg, p4, cases, parity_ok=True, swap=None, nmass=2):
     """densities at p and Lambda p on the implementation, certified close; invariant masses tied to the model"""
     from tf_pwa.config_loader import ConfigLoader
@@ -51,8 +55,10 @@ def metamorphic(ctx, rnd, tag, cfg, p4, cases, parity_ok=True, swap=None, nmass=
     amp = config.get_amplitude()
     pars = ampkit.random_params(amp, rnd)
     data = config.data.cal_angle(p4)
-    rho = np.array(amp(data))
+    with amplayers.VertexCapture() as cap:
+        rho = np.array(amp(data))
     nev = len(rho)
+    VCASES.extend(amplayers.vertex_cases(ctx, tag, cap, [0], rnd, max_comp=3, meta0={"config": cfg}))
     meta0 = {"config": cfg, "params": {k: float(v) for k, v in pars.items()}, "events": {k: v.tolist() for k, v in p4.items()}}
     for e in range(nev):
         ok = math.isfinite(rho[e]) and rho[e] >= 0
@@ -119,6 +125,8 @@ def search(ctx, fails):
 
 
 def run(ctx):
+    del VCASES[:]
+    ctx.extra_targets = ["Amp/Chain.vo"]
     rnd = random.Random(ctx.seed * 1000003 + 1)
     ctx.rule = ("spin-0 three-chain configs: closed-form layers at p and at Lambda p for Lambda in {rotation, boost(|v|<=0.9), rot+boost, inversion}; spinful: spin-1/2 weak decay, "
                 "vector->vector+2 scalars, 4-body vector->4 scalars via (VV) and (A->V) cascades, identical spin-0 pair: densities at p vs Lambda p, one generator at a time; "
@@ -164,6 +172,8 @@ def run(ctx):
     for c in cases[:: max(1, len(cases) // 4)]:
         ctx.sample({"case": c[0], "goal": c[1][:300], "layer": c[3].get("layer")}, cap=12)
     res_ = common.coq_cases(ctx, "c01", HEADER, [c[:3] for c in cases], per_file=8, case_timeout=60)
+    res_.update(common.coq_cases(ctx, "c01v", amplayers.HEADER, [c[:3] for c in VCASES], per_file=6, case_timeout=90))
+    cases = cases + VCASES
     for cid, stmt, tac, meta in cases:
         if res_[cid] != "OK":
             ctx.fail(meta["layer"], cid, "layer %s does not check (%s)" % (meta["layer"], res_[cid]), inp=meta,
